@@ -17,7 +17,7 @@ fn alg(typ: i32) -> PasswordHashAlgorithm {
 
 pub fn dry(outlen: usize, pwd: &[u8], salt: &[u8], t: u64, memlimit: usize, typ: i32) -> Result<Option<Vec<u8>>, String> {
     guarded(AssertUnwindSafe(|| {
-        let mut out = vec![0u8; outlen];
+        let mut out = vec![0xC3u8; outlen];
         crypto_pwhash(&mut out, pwd, salt, t, memlimit, alg(typ)).ok().map(|_| out)
     }))
 }
@@ -173,7 +173,31 @@ pub fn run() -> i32 {
     }
     rej("memlimit>max", 32, 16, 1, dryoc::constants::CRYPTO_PWHASH_MEMLIMIT_MAX.saturating_add(1), &mut st);
     rej("opslimit>max", 32, 16, dryoc::constants::CRYPTO_PWHASH_OPSLIMIT_MAX + 1, 8192, &mut st);
-    st.sample(json!({"grid": "G4", "rejected": ["outlen 0..=15", "salt 0..=7", "opslimit 0", "memlimit 0,1,1024,8191", "memlimit max+1", "opslimit max+1"]}));
+    // values that are in range only after a 64 -> 32 bit truncation
+    for ops in [(1u64 << 32) + 1, (1u64 << 32) + 3, (1u64 << 33) + 1, (1u64 << 40) + 2] {
+        rej("opslimit=k*2^32+r", 32, 16, ops, 8192, &mut st);
+        let r = guarded(AssertUnwindSafe(|| {
+            let a = dryoc::classic::crypto_pwhash::crypto_pwhash_str(b"pw", ops, 8192).is_ok();
+            let cfg = Config::interactive().with_opslimit(ops).with_memlimit(8192);
+            let b = PwHash::<Vec<u8>, Vec<u8>>::hash_with_salt(&b"pw".to_vec(), vec![7u8; 16], cfg.clone()).is_ok();
+            let c = PwHash::<Vec<u8>, Vec<u8>>::hash(&b"pw".to_vec(), cfg).is_ok();
+            (a, b, c)
+        }));
+        let oc = match r {
+            Ok((false, false, false)) => "rejected-out-of-range",
+            Ok(_) => "accepted-out-of-range",
+            Err(_) => "panic",
+        };
+        st.eval(&("G4-str-obj", ops), true, oc);
+        if oc != "rejected-out-of-range" {
+            st.fail(Fail { check: "C09.argon2".into(), signature: format!("C09/G4/{}/opslimit=k*2^32+r(str,object)", oc), what: format!("opslimit {} through crypto_pwhash_str / PwHash::hash_with_salt / PwHash::hash gave {:?}", ops, r), case: json!({"kind": "reject"}) });
+        }
+    }
+    #[cfg(target_pointer_width = "64")]
+    for mem in [((1usize << 32) + 8) * 1024, (1usize << 42) + 8192, (1usize << 45) + 8192] {
+        rej("memlimit=k*2^42+r", 32, 16, 1, mem, &mut st);
+    }
+    st.sample(json!({"grid": "G4", "rejected": ["opslimit k*2^32+r (classic, str, object)", "memlimit k*2^42+r", "outlen 0..=15", "salt 0..=7", "opslimit 0", "memlimit 0,1,1024,8191", "memlimit max+1", "opslimit max+1"]}));
     ctx.absorb("G4-rejects", st);
     {
         use std::io::Write;
